@@ -1064,6 +1064,15 @@ class Rotate(om.ExplicitComponent):
         partials["mesh", "in_mesh"][:nqc] += (1 - self.ref_axis_pos) * d_qch
         partials["mesh", "in_mesh"][nn - nqc : nn] += self.ref_axis_pos * d_qch
 
+        # Quarter chord direct contribution to the leading/trailing edge off-diagonal terms.
+        # This does not depend on the x-rotation, so it is needed for rotate_x=False as well.
+        del_n = nn - 9 * ny
+        nn2 = nn + del_n
+        nn3 = nn2 + del_n
+        d_qch_od = np.tile(d_qch.flatten(), nx - 1)
+        partials["mesh", "in_mesh"][nn:nn2] = (1 - self.ref_axis_pos) * d_qch_od
+        partials["mesh", "in_mesh"][nn2:nn3] = self.ref_axis_pos * d_qch_od
+
         if rotate_x:
             dmats_dthx = np.zeros((ny, 3, 3))
             dmats_dthx[:, 1, 0] = cos_rtx * sin_rty
@@ -1078,21 +1087,13 @@ class Rotate(om.ExplicitComponent):
 
             d_dq_flat = d_dq.flatten()
 
-            del_n = nn - 9 * ny
-            nn2 = nn + del_n
-            nn3 = nn2 + del_n
-            partials["mesh", "in_mesh"][nn:nn2] = (1 - self.ref_axis_pos) * d_dq_flat[-del_n:]
-            partials["mesh", "in_mesh"][nn2:nn3] = self.ref_axis_pos * d_dq_flat[:del_n]
+            partials["mesh", "in_mesh"][nn:nn2] += (1 - self.ref_axis_pos) * d_dq_flat[-del_n:]
+            partials["mesh", "in_mesh"][nn2:nn3] += self.ref_axis_pos * d_dq_flat[:del_n]
 
             # Contribution back to main diagonal.
             del_n = 9 * ny
             partials["mesh", "in_mesh"][:nqc] += (1 - self.ref_axis_pos) * d_dq_flat[:del_n]
             partials["mesh", "in_mesh"][nn - nqc : nn] += self.ref_axis_pos * d_dq_flat[-del_n:]
-
-            # Quarter chord direct contribution.
-            d_qch_od = np.tile(d_qch.flatten(), nx - 1)
-            partials["mesh", "in_mesh"][nn:nn2] += (1 - self.ref_axis_pos) * d_qch_od
-            partials["mesh", "in_mesh"][nn2:nn3] += self.ref_axis_pos * d_qch_od
 
             # off-off diagonal pieces
             if symmetry:
